@@ -92,13 +92,13 @@ def gen_cases(rng, tier, escalate=False):
 
     # every delivery order of small scripts (3 peers)
     for _ in range(10 * k):
-        add(cg.struct_script(rng, 3, "tiny"), mode="explore", max_paths=3000 if thorough else 60, max_depth=18, max_terms=4)
+        add(cg.struct_script(rng, 3, "tiny"), mode="explore", max_paths=1500 if thorough else 60, max_depth=18, max_terms=4)
     for _ in range(6 * k):
-        add(cg.struct_script(rng, 3, "small"), mode="explore", max_paths=1500 if thorough else 40, max_depth=26, max_terms=3)
+        add(cg.struct_script(rng, 3, "small"), mode="explore", max_paths=600 if thorough else 40, max_depth=26, max_terms=3)
     for _ in range(3 * k):
-        add(cg.fold_script(rng, 3), mode="explore", max_paths=800 if thorough else 30, max_depth=30, max_terms=3)
+        add(cg.fold_script(rng, 3), mode="explore", max_paths=400 if thorough else 30, max_depth=30, max_terms=3)
     for _ in range(3 * k):
-        add(cg.map_script(rng, 3), mode="explore", max_paths=800 if thorough else 30, max_depth=26, max_terms=3)
+        add(cg.map_script(rng, 3), mode="explore", max_paths=400 if thorough else 30, max_depth=26, max_terms=3)
     # random schedules with duplicates and re-deliveries
     for _ in range(40 * k):
         sz = rng.choice(["small", "small", "big"])
